@@ -16,7 +16,12 @@ import zlib
 BIG = 1000  # profile rows live in [BIG, ...); witness / sanity rows live in [0, D)
 
 
+PRIMS = {"lt": "<", "ne": "!=", "add": "+"}  # lt(a,b), ne(a,b): guards; add(a,b)=c: computed value
+
+
 def kind_of(name):
+    if name in PRIMS:
+        return "prim"
     if name.startswith("mk"):
         return "ctor"
     return "fn" if name[0].islower() else "rel"
@@ -30,7 +35,7 @@ class Atom:
         self.args = args
         self.ret = ret  # None for relations; entry for functions and constructors
         self.kind = kind_of(name)
-        self.is_func = self.kind != "rel"  # has a value column that the body can bind
+        self.is_func = self.kind in ("fn", "ctor")  # has a value column that the body can bind
 
     def render(self):
         def r(e):
@@ -135,7 +140,17 @@ def parse_body(s):
             ret, i = _parse_term(toks, i + 1)
         name = t[1]
         k = kind_of(name)
-        if k == "rel":
+        if k == "prim":
+            args = [flat(a) for a in t[2]]
+            if name == "add":
+                if ret is None or ret[0] == "app":
+                    raise ValueError("add(a,b)=c expected")
+                out.append(Atom(name, args, ret))
+                texts.append("(= %s (+ %s))" % (_term_text(ret), " ".join(_term_text(a) for a in t[2])))
+            else:
+                out.append(Atom(name, args))
+                texts.append("(%s %s)" % (PRIMS[name], " ".join(_term_text(a) for a in t[2])))
+        elif k == "rel":
             if ret is not None:
                 raise ValueError("relation atom with =ret")
             note(name, t[2], None)
@@ -172,6 +187,8 @@ def signature(atoms):
     """name -> arity (number of key columns)"""
     sig = {}
     for a in atoms:
+        if a.kind == "prim":
+            continue
         if a.name in sig and sig[a.name] != len(a.args):
             raise ValueError("inconsistent arity for " + a.name)
         sig[a.name] = len(a.args)
@@ -262,6 +279,15 @@ SHAPES = [
     ("k_chain", "mkA(x)=e1 mkB(e1,y)=e2 S(e2,z)", "q"),
     ("k_assoc", "mkC(mkC(e1,e2),e3)=e", ""),
     ("k_guard", "R(mkA(a),b) S(y) -> y", ""),
+    # primitive guards and computed values (they live in the action program; the join is planned without them)
+    ("f_lt", "R(x,y) lt(x,y)", "q"),
+    ("f_lt_link", "R(x,y) S(z,w) lt(x,z)", "q"),
+    ("f_ne_self", "R(x,y) R(y,z) ne(x,z)", "q"),
+    ("f_add", "R(x,y) add(x,y)=v", "q"),
+    ("f_add_join", "R(x,y) S(z,w) add(y,w)=v lt(x,z)", "q"),
+    ("f_add_bound", "R(x,y) S(y,z) add(x,y)=z", "q"),
+    ("f_lt_tri", "R(x,y) S(y,z) T(z,x) lt(x,y)", ""),
+    ("f_ne_proj", "R(x,y) S(z,w) ne(y,w) -> x,z", ""),
 ]
 
 # profile = rows seeded per table before planning: (default size, {name: size} overrides)
